@@ -149,6 +149,13 @@ def generate(rng, tier, boost):
             cases.append((701, [G.push(sig), G.push(key) + b'\xac', rf(rng), rng.randrange(12)]))
             cases.append((701, [b'\x00' + G.push(sig), b'\x51' + G.push(key) + b'\x51\xae', rf(rng), rng.randrange(12)]))
             cases.append((701, [G.push(sig) + G.push(key), b'\x76\xa9' + G.push(h160(key)) + b'\x88\xad\x51', rf(rng), rng.randrange(12)]))
+    # over-long signature operands (74, 75, 100, 255, 520 bytes) for CHECKSIG and in every slot of CHECKMULTISIG
+    for n in (73, 74, 75, 100, 255, 520):
+        sig = b'\x30' + rbytes(rng, n - 2) + b'\x01'
+        cases.append((701, [G.push(sig), G.push(pk) + b'\xac', rf(rng), rng.randrange(12)]))
+        cases.append((701, [b'\x00' + G.push(sig), b'\x51' + G.push(pk) + b'\x51\xae', rf(rng), rng.randrange(12)]))
+        cases.append((701, [b'\x00' + G.push(sig) + G.push(sig[:60]), b'\x52' + G.push(pk) + G.push(pk) + G.push(b'\x03' + pk[1:]) + b'\x53\xaf\x51', rf(rng), rng.randrange(12)]))
+        cases.append((701, [b'\x00' + G.push(sig[:60]) + G.push(sig), b'\x52' + G.push(pk) + G.push(pk) + b'\x52\xae', rf(rng), rng.randrange(12)]))
     # CHECKMULTISIG / CHECKMULTISIGVERIFY with key and signature counts outside 0..20 on shallow and deep stacks
     for cnt in (-1, -2, -3, -4, -21, -128, 21, 22, 100, 255, 2 ** 31 - 1, -(2 ** 31) + 1):
         for depth in (0, 1, 2, 3, 5, 25):
